@@ -44,7 +44,7 @@ BOUNDS = {
     "thorough": "adds all 2-thread programs with <= 2 requests each (nested+sequential, 2 paths) bound 2, all 3-thread 1-request programs bound 2, 2x2 processes/threads bound 3, 1 spurious wake-up",
 }
 
-LOCK_SRC = "/repo/src/pharmpy/internals/fs/lock.py"
+LOCK_SRC = os.path.join(os.environ.get("VERIF_REPO", "/repo"), "src/pharmpy/internals/fs/lock.py")
 _code_cache = {}
 
 
